@@ -36,6 +36,7 @@ RULES = {
     "R20.5": "format precision >= 0 and no int() of a possibly infinite value, for every validator-admitted (gamma, epsilon) and convergence_test",
     "R20.7": "every self.config.<field> read by a method that a concrete solver / problem class resolves to exists in that class's own Config (so the kwargs, config-only and reload routes all find it)",
     "R20.8": "the four problem constructors and the solver accept `config` or keyword arguments the same way: self.config = config if given else self.Config(**kwargs)",
+    "R20.9": "verbosity: every validator-accepted level 0..4 is a key of the level table, the table is {0:ERROR,1:WARNING,2:INFO,3:DEBUG,4:TRACE}, the string table of set_verbosity is its inverse, anything else raises",
     "R20.6": "the 64-bit switch dominates every JAX array creation and the problem instantiation in Solver._setup_config; problem constructors do not create floating tables before a solver can enable it",
 }
 ASSUMPTIONS = [
@@ -695,6 +696,80 @@ def _int_marked(e) -> bool:
     return "int32" in s or "dtype=int" in s
 
 
+# =============================================================================== R20.9
+LEVELS = {0: "ERROR", 1: "WARNING", 2: "INFO", 3: "DEBUG", 4: "TRACE"}
+
+
+def _verbosity(ctx, col):
+    m = ctx.repo.module("mdpax.utils.logging")
+    fn = m.functions.get("verbosity_to_loguru_level")
+    if fn is None:
+        raise AnalysisError("anchor vanished: mdpax.utils.logging.verbosity_to_loguru_level")
+    tables = [n for n in ast.walk(fn) if isinstance(n, ast.Dict)]
+    ok, why = False, "no level table (dict literal) in verbosity_to_loguru_level"
+    if len(tables) == 1:
+        try:
+            tab = ast.literal_eval(tables[0])
+        except Exception:
+            tab = None
+        ok = tab == LEVELS
+        why = "level table == {0:ERROR, 1:WARNING, 2:INFO, 3:DEBUG, 4:TRACE}" if ok else f"level table is {tab}"
+    col.add("R20.9", "verbosity_to_loguru_level", m.relpath, fn.lineno, ok, why, text="level table")
+    # the table is indexed by the argument itself
+    rets = [n for n in ast.walk(fn) if isinstance(n, ast.Return) and n.value is not None]
+    idx_ok = len(rets) == 1 and isinstance(rets[0].value, ast.Subscript) and isinstance(rets[0].value.value, ast.Dict) \
+        and isinstance(rets[0].value.slice, ast.Name) and rets[0].value.slice.id == fn.args.args[0].arg
+    col.add("R20.9", "verbosity_to_loguru_level", m.relpath, fn.lineno, idx_ok,
+            "returns table[verbose]" if idx_ok else "the level is not looked up by the verbosity argument itself", text="table lookup")
+    # guards: out-of-range raises ValueError, non-int TypeError; accepted set must be within the table's keys
+    guards = [s_ for s_ in fn.body if isinstance(s_, ast.If) and s_.body and isinstance(s_.body[0], ast.Raise)]
+    rej = None
+    for g in guards:
+        class R(ast.NodeTransformer):
+            def visit_Name(self, n):
+                if n.id == fn.args.args[0].arg:
+                    return ast.Attribute(value=ast.Name(id="self", ctx=ast.Load()), attr="__v__", ctx=ast.Load())
+                return n
+        import copy
+        t2 = R().visit(copy.deepcopy(g.test))
+        sset = pred_set(t2, "__v__")
+        if sset is not None:
+            rej = sset if rej is None else ivset_union(rej, sset)
+    acc = _int_norm(ivset_complement(rej)) if rej is not None else None
+    okr = acc is not None and len(acc) == 1 and acc[0].lo == 0 and acc[0].hi == 4
+    col.add("R20.9", "verbosity_to_loguru_level", m.relpath, fn.lineno, okr,
+            "levels outside 0..4 raise before the table lookup" if okr else
+            f"accepted integer levels are {[str(a) for a in acc] if acc else 'unbounded'}; the table only has 0..4 (KeyError otherwise)", text="range guard")
+    # validator-accepted verbose values are all table keys
+    for cls in ctx.solvers():
+        ca = ctx.ct.class_attr(cls, "Config")
+        cfg = ctx.ct.class_of_dotted(ctx.ct.resolve_name(ca[0].module, ast.unparse(ca[1])))
+        _o, vf, got, _e, _n = validator_constraints(ctx, cfg)
+        a = [c for c in got.get("verbose", []) if c[0] == "accept"]
+        okv = len(a) == 1 and len(a[0][1]) == 1 and a[0][1][0].lo >= 0 and a[0][1][0].hi <= 4
+        col.add("R20.9", f"{cfg.name}.verbose", cfg.module.relpath, vf.lineno, okv,
+                "every accepted verbose level is a key of the level table" if okv else
+                "the validator accepts a verbose level that has no entry in the level table (KeyError / ValueError in the constructor)",
+                text="accepted levels within table")
+    sol = ctx.ct.get("Solver")
+    owner, sfn = ctx.ct.require(sol, "set_verbosity")
+    st = [n for n in ast.walk(sfn) if isinstance(n, ast.Dict)]
+    oks = False
+    if len(st) == 1:
+        try:
+            oks = ast.literal_eval(st[0]) == {v: k for k, v in LEVELS.items()}
+        except Exception:
+            oks = False
+    col.add("R20.9", "Solver.set_verbosity", owner.module.relpath, sfn.lineno, oks,
+            "string levels map to the inverse of the level table" if oks else "string-level table is not the inverse of the integer table",
+            text="string level table")
+    calls = [c for c in calls_in(sfn) if isinstance(c.func, ast.Name) and c.func.id == "verbosity_to_loguru_level"]
+    adds = [c for c in calls_in(sfn) if ast.unparse(c.func) == "logger.add"]
+    okw = len(calls) == 1 and len(adds) == 1 and any(k.arg == "level" for k in adds[0].keywords)
+    col.add("R20.9", "Solver.set_verbosity", owner.module.relpath, sfn.lineno, okw,
+            "the converted level is installed on the logger sink" if okw else "the converted level does not reach logger.add(level=...)", text="level installed")
+
+
 # =============================================================================== R20.7 / R20.8
 def _config_fields(ctx, col):
     n = 0
@@ -764,6 +839,8 @@ def run(ctx: Context, col) -> None:
     _validators(ctx, col)
     c10._targets(ctx, _Rename(col, "R20.4"))
     _config_fields(ctx, col)
+    _verbosity(ctx, col)
+    col.floor("R20.9", 9)
     _x64(ctx, col)
     try:
         _format_precision(ctx, col)
